@@ -791,8 +791,11 @@ func (r *cliRun) judge(p *core.Plan) {
 	if !sessFault {
 		for cn, l := range wantRel {
 			for _, rw := range l {
-				// what happened on that connection after the PUBREC was received?
-				gotSave, gotSend, died := false, false, false
+				// what happened on that connection after the PUBREC was received? The
+				// processor handles one packet at a time: once Receive returns again on
+				// that connection the PUBREC has been handled without an error.
+				gotSave, gotSend, died, handled := false, false, false, false
+			scan:
 				for _, e := range w.Hist {
 					if e.Seq <= rw.seq {
 						continue
@@ -806,13 +809,17 @@ func (r *cliRun) judge(p *core.Plan) {
 						if q, ok := e.P.(*packet.Pubrel); ok && q.ID == rw.id {
 							gotSend = true
 						}
-					case e.C == cn && (e.K == EvFault || e.K == EvClose || (e.K == EvRecv && e.Err != nil) || (e.K == EvSent && e.Err != nil)):
-						if !gotSave {
-							died = true
-						}
+					case e.K == EvRecv && e.C == cn:
+						handled = true
+						break scan
 					case e.K == EvSess && (e.S == "reset" || e.S == fmt.Sprintf("delete/1/%d", rw.id)) && !gotSave:
 						died = true // the record went away for another reason (clean teardown, spurious acknowledgement)
 					}
+				}
+				if !handled {
+					died = true
+				} else {
+					res.Count("pubrec_replacements_checked", 1)
 				}
 				if !died && (!gotSave || !gotSend) {
 					res.Violate("C09", "C09.pubrec-replaces-record", fmt.Sprintf("save%v-send%v", gotSave, gotSend),
